@@ -52,15 +52,17 @@ def _h_quant(ctx, m, gi, nan_mode, output_dtype, n_edits, dropna=True):
         rows = [x1, x2] + ([float("nan")] if has_nan else [])
         X = pd.DataFrame({"f": column(ctx, rows)})
 
+        ubs = [quantiles[g[-1]] for g in groups]  # upper bound (= leader) of each group; 'replace' may move it
+
         def group_of(x, grps):
             for gi_, g in enumerate(grps):
-                if bool(x <= quantiles[g[-1]]):
+                if bool(x <= ubs[gi_]):
                     return gi_
             raise AssertionError("unreachable: inf sentinel")
 
         history = []
         for step in range(n_edits):
-            leaders = [quantiles[g[-1]] for g in groups]
+            leaders = list(ubs)
             options = []
             for i in range(len(groups) - 1):
                 options.append(("group", i, i + 1))      # discard lower neighbour into the upper one
@@ -68,12 +70,14 @@ def _h_quant(ctx, m, gi, nan_mode, output_dtype, n_edits, dropna=True):
             if has_nan and nan_in is None:
                 for i in range(len(groups)):
                     options.append(("group_nan", None, i))
+            for i in range(len(groups) - 1):
+                options.append(("replace", i, None))  # move a finite threshold to a new value between its neighbours ("round the thresholds")
             options.append(("noop_same", 0, 0))
             if not options:
                 break
             mode, a, b = options[ctx.choose(f"edit{step}", len(options))]
             before_lab = [None if (isinstance(r, float) and r != r) else group_of(r, groups) for r in rows]
-            exp_groups, exp_nan = [list(g) for g in groups], nan_in
+            exp_groups, exp_nan, exp_ubs = [list(g) for g in groups], nan_in, list(ubs)
             try:
                 with warnings.catch_warnings():
                     warnings.simplefilter("ignore")
@@ -82,12 +86,24 @@ def _h_quant(ctx, m, gi, nan_mode, output_dtype, n_edits, dropna=True):
                         d.update_discretizer("f", "group", leaders[a], leaders[b])
                         lo, hi = min(a, b), max(a, b)
                         exp_groups[lo:hi + 1] = [exp_groups[lo] + exp_groups[hi]]
+                        exp_ubs[lo:hi + 1] = [exp_ubs[hi]]  # the merged interval ends at the larger of the two thresholds
                         if exp_nan is not None and exp_nan >= hi:
                             exp_nan -= 1
                     elif mode == "group_nan":
                         desc = f"group(nan into {leaders[b]!r})"
                         d.update_discretizer("f", "group", float("nan"), leaders[b])
                         exp_nan = b
+                    elif mode == "replace":
+                        r = ctx.real(f"r{step}", feature_value=True)
+                        if a > 0:
+                            ctx.assume(r > ubs[a - 1])
+                        ctx.assume(r < ubs[a + 1])
+                        ctx.assume(r != ubs[a])
+                        for q_ in quantiles[:-1]:
+                            ctx.assume(r != q_)
+                        desc = f"replace({leaders[a]!r} by {r!r})"
+                        d.update_discretizer("f", "replace", leaders[a], r)
+                        exp_ubs[a] = r
                     else:
                         desc = "group(x into x)"
                         d.update_discretizer("f", "group", leaders[0], leaders[0])
@@ -101,7 +117,7 @@ def _h_quant(ctx, m, gi, nan_mode, output_dtype, n_edits, dropna=True):
             if mode == "replace":
                 # 'replace only renames a group': the partition of rows must be unchanged
                 pass
-            groups, nan_in = exp_groups, exp_nan
+            groups, nan_in, ubs = exp_groups, exp_nan, exp_ubs
             # ---- transform after the edit
             try:
                 out = list(d.transform(X)["f"])
